@@ -50,7 +50,7 @@ def run(ck: Check) -> None:
     r3(ck)
     r4(ck)
     ck.floor("R1", 8)
-    ck.floor("R2", 7)
+    ck.floor("R2", 4)
     ck.floor("R3", 2)
 
 
